@@ -192,6 +192,11 @@ fn parse_set_safe_command(command: &mut std::str::SplitN<&str>) -> Result<Reques
         },
         None => -1,
     };
+    if version < -1 {
+        // -2 is the internal "in conflict resolution" marker, a client must not be able to put a
+        // key in that state
+        return Err(String::from("set-safe version must not be negative"));
+    }
 
     let value = match rest.next() {
         Some(value) => value.replace("\n", ""),
@@ -364,6 +369,9 @@ fn parse_resolve_command(command: &mut std::str::SplitN<&str>) -> Result<Request
         },
         None => -1,
     };
+    if version < -1 {
+        return Err(String::from("resolve version must not be negative"));
+    }
 
     let value = match rest.next() {
         Some(value) => value.replace("\n", ""),
